@@ -2,7 +2,11 @@
 #include <math.h>
 #include <pthread.h>
 #include <signal.h>
+#include <fcntl.h>
+#include <sys/stat.h>
+#include <sys/wait.h>
 #include <time.h>
+#include <unistd.h>
 
 #include <atomic>
 #include <cmath>
@@ -136,38 +140,56 @@ static void check_filled(const uint8_t* p, size_t sz, uint8_t fill, const char* 
   }
 }
 
-static void random_data_sequence(const Case& c, std::string* failure_sig, std::string* failure_msg) {
+// options of a sequence: in the ordinary environment an exception is a failure; where the entropy source cannot be opened
+// (subcheck random_data_nofd) a call may throw instead of filling - what it may not do is return normally with bytes missing
+struct SeqOpts {
+  size_t first = 0; // index of the first size field of the case
+  bool may_throw = false;
+  std::function<void(size_t)> before_call; // ambient-state hook, called with the index of the request
+  uint64_t threw = 0, filled = 0;
+};
+
+static void random_data_sequence(const Case& c, std::string* failure_sig, std::string* failure_msg, SeqOpts* opts = nullptr) {
   try {
-    for (size_t k = 0; k < c.n.size(); k++) {
+    for (size_t k = opts ? opts->first : 0; k < c.n.size(); k++) {
       size_t sz = c.u(k);
+      if (opts && opts->before_call) opts->before_call(k - opts->first);
       // (a) into the middle of a guarded buffer
       // "fills the requested bytes" leaves no room for giving up: an exception is a failure of its own kind
-      auto filling = [&](auto&& call, const char* what) {
+      auto filling = [&](auto&& call, const char* what) -> bool {
         try {
           call();
+          if (opts) opts->filled++;
+          return true;
         } catch (const std::exception& e) {
+          if (opts && opts->may_throw) {
+            opts->threw++;
+            return false;
+          }
           VFAIL("random-data-threw", what, "(", sz, ") threw ", exception_name(e), ": ", e.what(), " (call #", k, ")");
         }
       };
       std::vector<uint8_t> buf(sz + 32, 0xA5);
-      filling([&] { phosg::random_data(buf.data() + 16, sz); }, "random_data(void*)");
+      bool done_a = filling([&] { phosg::random_data(buf.data() + 16, sz); }, "random_data(void*)");
       for (size_t g = 0; g < 16; g++) {
         VCHECK(buf[g] == 0xA5 && buf[16 + sz + g] == 0xA5, "random-data-guard", "random_data(", sz, ") wrote outside the requested bytes (call #", k, ")");
       }
-      check_filled(buf.data() + 16, sz, 0xA5, "random_data(void*)", k);
+      if (done_a) check_filled(buf.data() + 16, sz, 0xA5, "random_data(void*)", k);
       // (b) into an exactly-sized heap block: ASan sees the first byte past the end
       std::unique_ptr<uint8_t, void (*)(void*)> exact_owner(static_cast<uint8_t*>(malloc(sz ? sz : 1)), free);
       uint8_t* exact = exact_owner.get();
       memset(exact, 0x5A, sz);
-      filling([&] { phosg::random_data(exact, sz); }, "random_data(void*) exact block");
+      bool done_b = filling([&] { phosg::random_data(exact, sz); }, "random_data(void*) exact block");
       std::vector<uint8_t> copy(exact, exact + sz);
       exact_owner.reset();
-      check_filled(copy.data(), sz, 0x5A, "random_data(void*) exact block", k);
+      if (done_b) check_filled(copy.data(), sz, 0x5A, "random_data(void*) exact block", k);
       // (c) the string overload (zero-initialised result)
       std::string s;
-      filling([&] { s = phosg::random_data(sz); }, "random_data(size)");
-      VCHECK(s.size() == sz, "random-data-size", "random_data(", sz, ").size() == ", s.size());
-      check_filled(reinterpret_cast<const uint8_t*>(s.data()), sz, 0x00, "random_data(size)", k);
+      bool done_c = filling([&] { s = phosg::random_data(sz); }, "random_data(size)");
+      if (done_c) {
+        VCHECK(s.size() == sz, "random-data-size", "random_data(", sz, ").size() == ", s.size());
+        check_filled(reinterpret_cast<const uint8_t*>(s.data()), sz, 0x00, "random_data(size)", k);
+      }
     }
   } catch (const Fail& f) {
     *failure_sig = f.sig;
@@ -187,7 +209,7 @@ static void run_random_data(const Case& c) {
     total += 3 * c.u(k);
   }
   std::string sig, msg;
-  std::thread t(random_data_sequence, std::cref(c), &sig, &msg);
+  std::thread t([&] { random_data_sequence(c, &sig, &msg); });
   t.join();
   if (!sig.empty()) VFAIL(sig, msg);
   if (total > 4096) ctx().cls("random_data:sequence-crosses-a-pool-refill");
@@ -209,7 +231,7 @@ struct SigSeq {
   std::atomic<bool> done{false}, released{false};
 };
 static void sig_sequence_thread(SigSeq* q) {
-  random_data_sequence(q->sizes, &q->sig, &q->msg);
+  random_data_sequence(q->sizes, &q->sig, &q->msg, nullptr);
   q->done.store(true);
   // stay alive (and signalable) until the sender has stopped
   while (!q->released.load()) std::this_thread::yield();
@@ -251,6 +273,112 @@ static void run_random_data_sig(const Case& c) {
   if (!q.sig.empty()) VFAIL(q.sig, q.msg, " [while SIGUSR2 (SA_RESTART handler) was delivered every ", period, " us; ", delivered, " delivered]");
   ctx().cls(delivered == 0 ? "random_data_sig:no-signal-arrived" : delivered < 10 ? "random_data_sig:1-9-signals" : "random_data_sig:>=10-signals");
   if (large && delivered > 0) ctx().nontrivial_case();
+}
+
+// random_data in a process that cannot open the entropy source. "random_data fills exactly the requested bytes" is stated
+// without an environment; whether the kernel's random device can be opened when the process makes its FIRST call (the
+// descriptor is opened once, lazily) is ambient state like errno or pending signals: a process that has run out of
+// descriptors (EMFILE), a chroot / container without /dev. In that state a call may fail loudly - an exception claims nothing
+// was filled - or get its bytes some other way; what it may not do is return normally with requested bytes left untouched.
+// The state has to exist at the first call of the process, so each case runs in a fresh process: the harness re-executes
+// itself (/proc/self/exe --c20-nofd-child ...), the child makes an empty directory under its working directory its root
+// (chroot: no /dev there, open("/dev/urandom") fails with ENOENT; descriptors it already has keep working), verifies that
+// the open fails, runs the request sequence on its main thread with the oracle of random_data except that an exception is
+// accepted in place of a fill, and reports over a pipe. Before request number `restore_at` it returns to the real root
+// (/dev is there again: from then on the environment is the ordinary one, whatever the earlier calls decided).
+// (Exhausting the descriptor table - RLIMIT_NOFILE = 0, EMFILE - is the other way into this state; it is not used because
+// UBSan's own vptr check needs a pipe() and reports false positives without descriptors.) Needs CAP_SYS_CHROOT (the
+// framework runs as root).
+// case: n = [restore_at (>= number of requests: never), size0, size1, ...]
+static int nofd_child(int argc, char** argv) {
+  Case c("random_data_nofd");
+  for (int i = 2; i < argc; i++) c.N(strtoull(argv[i], nullptr, 10));
+  auto reply = [](const std::string& text) {
+    size_t off = 0;
+    while (off < text.size()) {
+      ssize_t w = write(1, text.data() + off, text.size() - off);
+      if (w <= 0) break;
+      off += static_cast<size_t>(w);
+    }
+    _exit(0);
+  };
+  if (c.n.size() < 2) reply("INFRA\nshort case\n");
+  int real_root = open("/", O_RDONLY | O_DIRECTORY);
+  if (real_root < 0) reply("INFRA\nopen(/) failed\n");
+  std::string jail = cat("c20-nofd-", getpid());
+  if (mkdir(jail.c_str(), 0700) != 0 && errno != EEXIST) reply("INFRA\nmkdir failed\n");
+  if (chroot(jail.c_str()) != 0 || chdir("/") != 0) reply(cat("INFRA\nchroot failed: ", strerror(errno), "\n"));
+  int probe = open("/dev/urandom", O_RDONLY);
+  if (probe >= 0) reply("INFRA\nopen(/dev/urandom) still succeeds inside the empty root\n");
+  uint64_t restore_at = c.u(0);
+  SeqOpts opts;
+  opts.first = 1;
+  opts.may_throw = true;
+  opts.before_call = [&](size_t k) {
+    if (k == restore_at && (fchdir(real_root) != 0 || chroot(".") != 0)) reply("INFRA\nleaving the empty root failed\n");
+  };
+  std::string sig, msg;
+  random_data_sequence(c, &sig, &msg, &opts);
+  if (!sig.empty()) reply(cat("FAIL\n", sig, "\n", msg, "\n"));
+  reply(cat("OK\n", opts.threw, " ", opts.filled, "\n"));
+  return 0;
+}
+
+static void run_random_data_nofd(const Case& c) {
+  if (c.n.size() < 2 || c.n.size() > 9) throw std::logic_error("bad case");
+  for (size_t k = 1; k < c.n.size(); k++)
+    if (c.u(k) > (1 << 20)) throw std::logic_error("size outside domain");
+  std::vector<std::string> args = {"c20-nofd-child", "--c20-nofd-child"};
+  for (size_t k = 0; k < c.n.size(); k++) args.push_back(std::to_string(c.u(k)));
+  std::vector<char*> av;
+  for (auto& a : args) av.push_back(a.data());
+  av.push_back(nullptr);
+  int pfd[2];
+  if (pipe(pfd) != 0) throw std::logic_error("pipe failed");
+  pid_t pid = fork();
+  if (pid < 0) throw std::logic_error("fork failed");
+  if (pid == 0) {
+    dup2(pfd[1], 1);
+    close(pfd[0]);
+    close(pfd[1]);
+    execv("/proc/self/exe", av.data());
+    _exit(126);
+  }
+  close(pfd[1]);
+  std::string out;
+  char buf[4096];
+  for (;;) {
+    ssize_t r = read(pfd[0], buf, sizeof(buf));
+    if (r < 0 && errno == EINTR) continue;
+    if (r <= 0) break;
+    out.append(buf, static_cast<size_t>(r));
+  }
+  close(pfd[0]);
+  int status = 0;
+  while (waitpid(pid, &status, 0) < 0 && errno == EINTR) {
+  }
+  rmdir(cat("c20-nofd-", pid).c_str());
+  auto line = [&](size_t i) {
+    size_t pos = 0;
+    for (size_t k = 0; k < i; k++) {
+      pos = out.find('\n', pos);
+      if (pos == std::string::npos) return std::string();
+      pos++;
+    }
+    size_t end = out.find('\n', pos);
+    return out.substr(pos, end == std::string::npos ? std::string::npos : end - pos);
+  };
+  std::string head = line(0);
+  const char* where = " [fresh process whose first random_data call finds /dev/urandom unopenable: empty root directory, ENOENT]";
+  if (head == "FAIL") VFAIL(line(1), line(2), where);
+  if (head == "INFRA") throw std::logic_error("nofd child: " + line(1));
+  // no report at all: the child died (sanitizer report, signal) while it ran the sequence
+  VCHECK(head == "OK" && WIFEXITED(status) && WEXITSTATUS(status) == 0, "random-data-nofd-child-died", "the child process ended with wait status ", status,
+      " without a verdict (output: \"", out.substr(0, 200), "\")", where);
+  unsigned long long threw = 0, filled = 0;
+  sscanf(line(1).c_str(), "%llu %llu", &threw, &filled);
+  ctx().cls(threw && filled ? "random_data_nofd:some calls threw, some filled" : threw ? "random_data_nofd:every call threw" : "random_data_nofd:every call filled");
+  if (c.n.size() >= 4 || (threw && filled)) ctx().nontrivial_case();
 }
 
 // ---------------------------------------------------------------- vectors
@@ -901,6 +1029,32 @@ static Case gen_random_data() {
   for (uint64_t k = 0; k < calls; k++) c.N(vg::chance(1, 24) ? gen_big_size(18) : gen_data_size());
   return c;
 }
+static Case gen_random_data_nofd() {
+  Case c("random_data_nofd");
+  uint64_t calls = 1 + vg::below(5);
+  c.N(vg::chance(1, 3) ? vg::below(calls) : calls);
+  for (uint64_t k = 0; k < calls; k++) {
+    switch (vg::below(5)) {
+      case 0: c.N(gen_data_size()); break;
+      case 1: c.N(gen_big_size(16)); break;
+      case 2: c.N((1 + vg::below(64)) * vg::pick<uint64_t>({16, 64, 256, 512, 1024, 4096})); break; // whole blocks of the usual block sizes
+      case 3: c.N((1ULL << vg::below(17)) - 1 + vg::below(3)); break; // 2^k - 1, 2^k, 2^k + 1 from 1 byte up
+      default: c.N(vg::below(600)); break;
+    }
+  }
+  return c;
+}
+static void enum_random_data_nofd(Enum& e) {
+  static const uint64_t sizes[] = {0, 1, 8, 31, 32, 33, 64, 255, 256, 257, 511, 512, 513, 768, 1024, 4095, 4096, 4097, 8192, 12288, 65535, 65536, 65537, 1 << 18};
+  uint64_t idx = 0;
+  for (uint64_t sz : sizes) {
+    if (!e.mine(idx++)) continue;
+    e.exec(Case("random_data_nofd").N(1).N(sz)); // never restored
+    e.exec(Case("random_data_nofd").N(1).N(8).N(sz)); // first call small, descriptors available again before the second
+    e.exec(Case("random_data_nofd").N(2).N(8).N(sz)); // first call small, still no descriptors at the second
+  }
+  e.complete("24 request sizes (0, 1, 2^k and 2^k+-1 around 32, 256, 512, 4096, 65536, multiples of 256 and of 4096) as the first request of a process that cannot open /dev/urandom, and as the second request after an 8-byte one, still inside the empty root / back in the real root");
+}
 static Case gen_random_data_sig() {
   Case c("random_data_sig");
   c.N(vg::pick<uint64_t>({10, 20, 50, 100, 200, 500}));
@@ -1235,12 +1389,14 @@ static void enum_vtransd(Enum& e) {
 }
 
 int main(int argc, char** argv) {
+  if (argc >= 2 && strcmp(argv[1], "--c20-nofd-child") == 0) return nofd_child(argc, argv);
   std::vector<SubCheck> checks;
   checks.push_back({"gcd", run_gcd, gen_gcd, 200000, 1500000, 100, enum_gcd});
   checks.push_back({"log2i", run_log2i, gen_log2i, 100000, 500000, 100, enum_log2i});
   checks.push_back({"random_int", run_random_int, gen_random_int, 12000, 60000, 100, nullptr});
   checks.push_back({"random_data", run_random_data, gen_random_data, 4000, 30000, 100, nullptr});
   checks.push_back({"random_data_sig", run_random_data_sig, gen_random_data_sig, 1200, 8000, 100, nullptr});
+  checks.push_back({"random_data_nofd", run_random_data_nofd, gen_random_data_nofd, 400, 3000, 100, enum_random_data_nofd});
   checks.push_back({"v2", run_v2, nullptr, 0, 0, 100, enum_vectors});
   checks.push_back({"v3", run_v3, nullptr, 0, 0, 100, enum_v3});
   checks.push_back({"v4", run_v4, gen_v4, 100000, 400000, 100, nullptr});
